@@ -33,6 +33,7 @@ TraceInit ==
     /\ code = ToFun(Traces[tid].pre.code, -1)
     /\ tab = ToFun(Traces[tid].pre.tab, -1)
     /\ part = ToFun(Traces[tid].pre.part, 0)
+    /\ g2 = ToFun(Traces[tid].pre.g2, FALSE) /\ withsql = [a \in AppSet |-> {}]
     /\ stored = ToFun(Traces[tid].pre.stored, -1)
     /\ nver = Traces[tid].pre.nver
     /\ evo = RowsOfJson(Traces[tid].pre.evo)
@@ -87,7 +88,7 @@ TStmtFail == /\ IsEvent("stmt_fail")
                          ELSE <<"evolve", Ev.app, si>>
              /\ pc' = "failing"
              /\ UNCHANGED <<code, tab, part, stored, nver, evo, pend, drv, work, todo,
-                            create, rec, cur, si, failed, sigs, execs, runs, snap, newver>>
+                            create, rec, cur, si, failed, sigs, execs, runs, snap, newver, g2, withsql>>
 
 (* a commit on the connection: whatever is pending becomes durable *)
 TCommit == /\ IsEvent("commit")
@@ -108,7 +109,7 @@ TSave == /\ IsEvent("save_signature")
                 /\ evo' = evo \o RowsOf
                 /\ pc' = "saved"
                 /\ UNCHANGED <<code, tab, part, pend, drv, work, todo, create, rec, cur, si,
-                               fault, failed, sigs, execs, runs, snap, newver>>)
+                               fault, failed, sigs, execs, runs, snap, newver, g2, withsql>>)
          /\ Len(RowsOf) = Ev.nrows
 
 TEvolved == IsEvent("evolved") /\ EmitEvolved
@@ -118,13 +119,13 @@ TFailed  == /\ IsEvent("evolving_failed")
                \/ (pc \notin {"emitfailed", "failing"} /\ sigs' = Append(sigs, <<"evolving_failed">>)
                    /\ pc' = "failed" /\ failed' = TRUE
                    /\ UNCHANGED <<code, tab, part, stored, nver, evo, pend, drv, work, todo,
-                                  create, rec, cur, si, fault, execs, runs, snap, newver>>)
+                                  create, rec, cur, si, fault, execs, runs, snap, newver, g2, withsql>>)
 
 (* end of the run: the model's durable state must be the observed one *)
 TEnd == /\ IsEvent("end")
         /\ pc \in {"done", "failed", "rejected", "idle", "prepared"}
         /\ \A a \in AppSet :
-              /\ (Ev.post.tab[a] = -2 <=> part[a] > 0)
+              /\ (Ev.post.tab[a] = -2 <=> (part[a] > 0 \/ g2[a]))
               /\ (Ev.post.tab[a] # -2 => Ev.post.tab[a] = tab[a])
               /\ Ev.post.stored[a] = stored[a]
         /\ Ev.post.nver = nver
